@@ -110,6 +110,11 @@ PREDICATES_P = {
     "divisible": (lambda x, k: x % k == 0, "{0} is not divisible by {1}", "int"),
     "longer": (lambda x, n: len(x) > n, "len({0}) <= {1}", "str"),
     "bare_p": (lambda x, n: len(x) > n, "{0}", "str"),
+    # parameters given BY KEYWORD to the factory (the documented "{0} is not a {type_to_check}" style); the
+    # predicate has defaults of its own, which must not be what decides
+    "between": (lambda x, low=100, high=200: low <= x <= high, "{0} is not between {low} and {high}", "int"),
+    "below": (lambda x, high=-1000: x <= high, "{0} is above {high}", "int"),
+    "shorter": (lambda x, limit=0: len(x) < limit, "len({0}) >= {limit}", "str"),
 }
 
 
@@ -297,6 +302,8 @@ def build(e, env):
         return M.MatchesPredicate(f, msg)
     if op == "MatchesPredicateWithParams":
         f, msg, _ = PREDICATES_P[e[1]]
+        if isinstance(e[2], dict):
+            return M.MatchesPredicateWithParams(f, msg)(**e[2])
         return M.MatchesPredicateWithParams(f, msg)(e[2])
     if op == "AfterPreprocessing":
         return M.AfterPreprocessing(PREPROCESSORS[e[1]][0], B(e[2]), *([e[3]] if len(e) > 3 else []))
@@ -443,6 +450,12 @@ def sem(e, v, env, raw=None):
     if op == "MatchesPredicate":
         return bool(PREDICATES[e[1]][0](v))
     if op == "MatchesPredicateWithParams":
+        if isinstance(e[2], dict):
+            if e[1] == "between":
+                return e[2]["low"] <= v <= e[2]["high"]
+            if e[1] == "below":
+                return v <= e[2]["high"]
+            return len(v) < e[2]["limit"]
         return bool(PREDICATES_P[e[1]][0](v, e[2]))
     if op == "AfterPreprocessing":
         return S(e[2], PREPROCESSORS[e[1]][0](v))
@@ -656,13 +669,16 @@ def leaves(domain, rng=None):
         for c in (0, 1, 2, 5):
             L += [["Equals", c], ["NotEquals", c], ["LessThan", c], ["GreaterThan", c]]
         L += [["IsInstance", ["int"]], ["IsInstance", ["str", "bytes"]], ["MatchesPredicate", "even"],
-              ["MatchesPredicate", "positive"], ["MatchesPredicateWithParams", "divisible", 3]]
+              ["MatchesPredicate", "positive"], ["MatchesPredicateWithParams", "divisible", 3],
+              ["MatchesPredicateWithParams", "between", {"low": 0, "high": 2}],
+              ["MatchesPredicateWithParams", "below", {"high": 1000}]]
     elif domain == "str":
         for s in ("", "a", "ab", "\xe9", "a\nb", "line1\nline2\n"):
             L += [["Equals", s], ["StartsWith", s], ["EndsWith", s], ["Contains", s]]
         L += [["NotEquals", "a"], ["HasLength", 0], ["HasLength", 2], ["IsInstance", ["str"]],
               ["MatchesPredicate", "nonempty"], ["MatchesPredicateWithParams", "longer", 1],
-              ["MatchesPredicate", "bare"], ["MatchesPredicateWithParams", "bare_p", 5]]
+              ["MatchesPredicate", "bare"], ["MatchesPredicateWithParams", "bare_p", 5],
+              ["MatchesPredicateWithParams", "shorter", {"limit": 2}]]
         L += [["MatchesRegex", p, f] for p, f in REGEXES]
         L += [["DocTestMatches", s] for s in ("a", "ab", "\xe9", "a'b\"c", "", "line1\nline2")]
     elif domain == "bytes":
@@ -714,6 +730,7 @@ def leaves(domain, rng=None):
         L = [["PathExists"], ["DirExists"], ["FileExists"], ["DirContains", ["x", "y"]],
              ["DirContains", []], ["DirContains", ["x"]], ["SamePath", "file_a"], ["SamePath", "dir_d/x"],
              ["SamePath", "deep/file_q"], ["SamePath", "link_in/../file_q"], ["SamePath", "file_q"],
+             ["FileContains", ""], ["FileContains", "hello"], ["FileContainsM", ["Equals", ""]],
              ["Always"], ["Never"]]
     return L
 
